@@ -181,22 +181,22 @@ var c16Wraps = []c16Wrap{
 // c16Expect computes the documented expectation of a program built from
 // prefix effects, an offender in a wrapper, and suffix effects, given the names
 // that exist initially.
-func c16Expect(initial []string, pre []int, off *c16Off, w *c16Wrap, suf []int) int {
+func c16Expect(initial []string, pre []int, off *c16Off, w *c16Wrap, suf []int) (int, string) {
 	names := map[string]bool{}
 	for _, n := range initial {
 		names[n] = true
 	}
-	res := c16OK
-	worse := func(e int) {
-		if e == c16Bad || (e == c16Unknown && res == c16OK) {
-			res = e
+	res, cause := c16OK, "valid"
+	worse := func(e int, why string) {
+		if (e == c16Bad && res != c16Bad) || (e == c16Unknown && res == c16OK) {
+			res, cause = e, why
 		}
 	}
 	eff := func(i int) {
 		e := &c16Effects[i]
 		for _, r := range e.req {
 			if !names[r] {
-				worse(e.reqExp)
+				worse(e.reqExp, "effect-needs-missing-variable")
 			}
 		}
 		for _, d := range e.del {
@@ -210,7 +210,7 @@ func c16Expect(initial []string, pre []int, off *c16Off, w *c16Wrap, suf []int) 
 		eff(i)
 	}
 	if off != nil {
-		e := off.exp
+		e, why := off.exp, off.kind
 		if off.fnOnly {
 			switch w.scope {
 			case 0:
@@ -221,15 +221,15 @@ func c16Expect(initial []string, pre []int, off *c16Off, w *c16Wrap, suf []int) 
 		}
 		for _, r := range off.req {
 			if !names[r] {
-				e = c16Bad // use / set of a variable that does not exist
+				e, why = c16Bad, off.kind+"-of-missing-variable" // use / set of a variable that does not exist
 			}
 		}
-		worse(e)
+		worse(e, why)
 	}
 	for _, i := range suf {
 		eff(i)
 	}
-	return res
+	return res, cause
 }
 
 // ---------------------------------------------------------------------------
@@ -476,7 +476,7 @@ var c16RouteNames = []string{"eval", "eval-cfg-global", "builtin-eval", "builtin
 // c16RunCase runs one program through Check and one evaluation route and
 // judges it. exp is the documented expectation (c16Unknown = not judged).
 // Returns the class key.
-func c16RunCase(c *vk.Ctx, w *c16Worker, route int, src string, exp int, label string) string {
+func c16RunCase(c *vk.Ctx, w *c16Worker, route int, src string, exp int, cause string) string {
 	rn := c16RouteNames[route]
 	ev, snap0 := w.context()
 
@@ -515,7 +515,7 @@ func c16RunCase(c *vk.Ctx, w *c16Worker, route int, src string, exp int, label s
 		code = "eval &on-end={|n| nop (keys $n) } " + parse.Quote(src)
 	}
 	if p := vk.Try(func() { err = ev.Eval(parse.Source{Name: "c16", Code: code}, cfg) }); p != "" {
-		c.Violate("panic-in-eval:"+vk.PanicSite(p), fmt.Sprintf("[%s] evaluating %q panicked: %s", rn, code, p), code)
+		c.Violate(rn+":panic:"+vk.PanicSite(p), fmt.Sprintf("[%s] evaluating %q panicked: %s", rn, code, p), code)
 		w.collect()
 		w.release("", true)
 		return rn + "/eval-panic"
@@ -576,11 +576,11 @@ func c16RunCase(c *vk.Ctx, w *c16Worker, route int, src string, exp int, label s
 	switch exp {
 	case c16Bad:
 		if !static {
-			c.Violate(rn+":documented-static-error-not-reported:"+label, fmt.Sprintf("[%s] %q must be rejected with a parse or compilation error before anything runs (%s), but evaluation result was %s %v; effects: values=%v stdout=%q stderr=%q file=%q calls=%d", rn, code, label, kind, err, o.values, o.stdout, o.stderr, o.file, o.marks), code)
+			c.Violate("documented-static-error-not-reported:"+cause, fmt.Sprintf("[%s] %q must be rejected with a parse or compilation error before anything runs (%s), but evaluation result was %s %v; effects: values=%v stdout=%q stderr=%q file=%q calls=%d", rn, code, cause, kind, err, o.values, o.stdout, o.stderr, o.file, o.marks), code)
 		}
 	case c16OK:
 		if static {
-			c.Violate(rn+":valid-code-rejected:"+label, fmt.Sprintf("[%s] %q is valid code (%s) but was rejected with a %s error: %v", rn, code, label, kind, msgErr), code)
+			c.Violate("valid-code-rejected:"+kind, fmt.Sprintf("[%s] %q is valid code but was rejected with a %s error: %v", rn, code, kind, msgErr), code)
 		}
 	}
 	eff := "quiet"
@@ -647,7 +647,7 @@ func c16ShellEffCode(i int, fpath string) string {
 	return c16Effects[i].code
 }
 
-func c16RunShellCase(c *vk.Ctx, w *c16Worker, src string, exp int, label string) string {
+func c16RunShellCase(c *vk.Ctx, w *c16Worker, src string, exp int, cause string) string {
 	shown := strings.ReplaceAll(src, w.fpath, "$F")
 	// static check entry points
 	co, p := w.runShell("-compileonly", "-c", src)
@@ -712,11 +712,11 @@ func c16RunShellCase(c *vk.Ctx, w *c16Worker, src string, exp int, label string)
 	switch exp {
 	case c16Bad:
 		if !static {
-			c.Violate("shell:documented-static-error-not-reported:"+label, fmt.Sprintf("elvish -c %q must be rejected with a parse or compilation error (%s) but: exit %d stdout %q stderr %q", shown, label, r.exit, r.stdout, r.stderr), shown)
+			c.Violate("shell:documented-static-error-not-reported:"+cause, fmt.Sprintf("elvish -c %q must be rejected with a parse or compilation error (%s) but: exit %d stdout %q stderr %q", shown, cause, r.exit, r.stdout, r.stderr), shown)
 		}
 	case c16OK:
 		if static {
-			c.Violate("shell:valid-code-rejected:"+label, fmt.Sprintf("elvish -c %q is valid code (%s) but was rejected: %q", shown, label, r.stderr), shown)
+			c.Violate("shell:valid-code-rejected:"+kind, fmt.Sprintf("elvish -c %q is valid code but was rejected: %q", shown, r.stderr), shown)
 		}
 	}
 	return "shell/" + kind + fmt.Sprintf("/%d", r.exit)
@@ -853,7 +853,7 @@ func TestVerifC16(t *testing.T) {
 				off, wr = &c16Offenders[ca.off], &c16Wraps[ca.wrap]
 				label = off.kind + "@" + wr.name
 			}
-			exp := c16Expect(c16InitialNames, ca.pre, off, wr, ca.suf)
+			exp, cause := c16Expect(c16InitialNames, ca.pre, off, wr, ca.suf)
 			if exp == c16Unknown {
 				atomic.AddInt64(&notJudged, 1)
 			}
@@ -870,7 +870,7 @@ func TestVerifC16(t *testing.T) {
 					if route == c16RouteOnEnd && len(ca.pre) > 1 {
 						continue // the &on-end route runs with prefixes of <=1 statement
 					}
-					cls := c16RunCase(c, w, route, src, exp, label)
+					cls := c16RunCase(c, w, route, src, exp, cause)
 					atomic.AddInt64(&nA, 1)
 					l.Case(fmt.Sprintf("A/%s/%d/%s", label, exp, cls))
 				}
@@ -947,9 +947,9 @@ func TestVerifC16(t *testing.T) {
 				}
 				return r
 			}
-			exp := c16Expect(nil, model(cc.pre), off, wr, model(cc.suf))
+			exp, cause := c16Expect(nil, model(cc.pre), off, wr, model(cc.suf))
 			src := c16Build(cc.pre, off, wr, cc.suf, "\n", func(i int) string { return c16ShellEffCode(i, w.fpath) })
-			cls := c16RunShellCase(c, w, src, exp, label)
+			cls := c16RunShellCase(c, w, src, exp, cause)
 			atomic.AddInt64(&nC, 1)
 			l.Case(fmt.Sprintf("C/%s/%d/%s", label, exp, cls))
 		})
